@@ -58,6 +58,47 @@ print(json.dumps(out))
 '''
 
 
+# Self-test of the cross-check (--selftest): deliberately broken rules of the symbolic semantics, applied in memory to the loaded pyvc
+# classes; each must make the cross-check report a MISMATCH, otherwise the corpus has lost its discriminating power for that rule.
+BREAKS = {
+    'finally skipped on continue': ('pyvc.interp_stmts', 'StmtMixin', 's_Try',
+                                    'except (PyRaise, ReturnSig, BreakSig, ContinueSig) as sig:', 'except (PyRaise, ReturnSig, BreakSig) as sig:'),
+    'finally skipped on return': ('pyvc.interp_stmts', 'StmtMixin', 's_Try',
+                                  'except (PyRaise, ReturnSig, BreakSig, ContinueSig) as sig:', 'except (PyRaise, BreakSig, ContinueSig) as sig:'),
+    'except clauses match the exact class only': ('pyvc.interp_stmts', 'StmtMixin', 'handler_matches',
+                                                  'any(self.ex.exc.is_sub(exc.cls, n) for n in names)', 'any(exc.cls == n for n in names)'),
+    'else clause of try skipped': ('pyvc.interp_stmts', 'StmtMixin', 's_Try',
+                                   "            else:\n                self.exec_block(st.orelse, fr)\n        except (PathEnd, Vanish, Undecided):",
+                                   "            else:\n                pass\n        except (PathEnd, Vanish, Undecided):"),
+    'exception raised in a handler is lost': ('pyvc.interp_stmts', 'StmtMixin', 's_Try',
+                                              "                        try:\n                            self.exec_block(h.body, fr)\n                        finally:",
+                                              "                        try:\n                            try:\n                                self.exec_block(h.body, fr)\n"
+                                              "                            except PyRaise:\n                                pass\n                        finally:"),
+    'list.pop() takes the first element': ('pyvc.interp_data', 'DataMixin', 'cm_HList_pop', 'i = -1 if idx is None else', 'i = 0 if idx is None else'),
+    'with never suppresses': ('pyvc.interp_stmts', 'StmtMixin', 'with_items',
+                              "            if self.cond(r, f'L{st.lineno}:with-suppress'):\n                return", "            if self.cond(r, f'L{st.lineno}:with-suppress'):\n                pass"),
+    'list += builds a new list': ('pyvc.interp_stmts', 'StmtMixin', 'augop',
+                                  "                self.cm_HList_extend(cur, rhs)\n", "                return self.ex.alloc(HList(self.ex.heap[cur.addr].items + self.iter_concrete(rhs)))\n"),
+    'loop else runs after break': ('pyvc.interp_stmts', 'StmtMixin', 's_For',
+                                   "                except BreakSig:\n                    return\n                except ContinueSig:\n                    continue\n            self.exec_block(st.orelse, fr)\n            return",
+                                   "                except BreakSig:\n                    break\n                except ContinueSig:\n                    continue\n            self.exec_block(st.orelse, fr)\n            return"),
+}
+BREAK = None
+
+
+def apply_break(name):
+    import importlib
+    modname, cls, meth, old, new = BREAKS[name]
+    mod = importlib.import_module(modname)
+    with open(mod.__file__) as f:
+        src = f.read()
+    if src.count(old) != 1:
+        raise RuntimeError(f'self-test break {name!r}: the text to replace occurs {src.count(old)} times in {modname}')
+    ns = dict(mod.__dict__)
+    exec(compile(src.replace(old, new), mod.__file__, 'exec'), ns)
+    setattr(getattr(mod, cls), meth, ns[cls].__dict__[meth])
+
+
 def corpus_functions(src):
     out = []
     for st in ast.parse(src).body:
@@ -80,6 +121,8 @@ def _verify_one(job):
     t0 = time.time()
     try:
         import z3
+        if BREAK:
+            apply_break(BREAK)
         from pyvc.frontend import Repo
         from pyvc.contracts import VExec, Contract
         from pyvc.core import Undecided
@@ -171,7 +214,7 @@ def _verify_one(job):
     return out
 
 
-def run(seed=0, ngen=40, only=None, jobs=14, verbose=False, quiet=False):
+def run(seed=0, ngen=40, only=None, jobs=14, verbose=False, quiet=False, show_mismatch=True):
     from xc_gen import generate
     with open(os.path.join(XROOT, PKG, 'prims.py')) as f:
         prims_src = f.read()
@@ -230,7 +273,7 @@ def run(seed=0, ngen=40, only=None, jobs=14, verbose=False, quiet=False):
             print(f"  {r['status']:12s} {r['func']} [{r['mode']}] ({r['obligations']} obligations, {r['paths']} paths, {r['seconds']} s)")
     for r in ([] if quiet else unsup):
         print(f"  {r['status']}: {r['func']}: {str(r['detail'] or '').strip().splitlines()[-1][:200] if r['detail'] else ''}")
-    for r in mism:
+    for r in (mism if show_mismatch else []):
         print(f"  MISMATCH: {r['func']} expected {expected[r['func']]}")
         for b in r['detail']:
             print('     ', json.dumps(b, default=str)[:1200])
@@ -246,7 +289,10 @@ def main():
     ap.add_argument('--only', default=None)
     ap.add_argument('--jobs', type=int, default=int(os.environ.get('VERIF_JOBS', '14')))
     ap.add_argument('-v', action='store_true')
+    ap.add_argument('--selftest', action='store_true', help='break rules of the symbolic semantics in memory: each must be reported as a MISMATCH')
     a = ap.parse_args()
+    if a.selftest:
+        return selftest(a)
     t0 = time.time()
     summary, mism = run(a.seed, a.gen, a.only, a.jobs, a.v)
     summary['wall_s'] = round(time.time() - t0, 1)
@@ -255,6 +301,23 @@ def main():
           f"{summary['partial']} for some k, {len(summary['unsupported']) - summary['partial']} outside the interpreted subset, {summary['outcomes_compared']} outcomes compared, "
           f"{len(mism)} MISMATCH; {summary['wall_s']} s")
     return 3 if mism else 0
+
+
+def selftest(a):
+    global BREAK
+    missed = []
+    for name in BREAKS:
+        BREAK = name
+        t0 = time.time()
+        try:
+            summary, mism = run(a.seed, a.gen, a.only, a.jobs, False, quiet=True, show_mismatch=False)
+        finally:
+            BREAK = None
+        print(f'  broken rule {name!r}: {len(mism)} function(s) disagree with CPython' + (f' (e.g. {mism[0]["func"]})' if mism else ' - NOT DETECTED') + f'; {round(time.time() - t0, 1)} s')
+        if not mism:
+            missed.append(name)
+    print(f'xcheck self-test: {len(BREAKS) - len(missed)} of {len(BREAKS)} deliberately broken rules detected')
+    return 3 if missed else 0
 
 
 if __name__ == '__main__':
